@@ -237,6 +237,13 @@ def run_check(pid, tier, seed, workers=None, cases=None, quiet=False):
     echo_idx = [i for i in echo_idx if i < n]
     jobs.append(({"property": pid, "mode": "sweep", "seed": seed, "first": 0, "last": 0, "indices": echo_idx,
                   "step": 1, "tier_cfg": cfg, "shrink_s": 0, "known": known}, echo_hs))
+    n_extra = 0
+    if pid == "C07":
+        # hash echo: the same sample in an interpreter with another PYTHONHASHSEED; histories that touch
+        # something legitimately hash-dependent are left out of the comparison by the worker
+        jobs.append(({"property": pid, "mode": "sweep", "seed": seed, "first": 0, "last": 0, "indices": echo_idx,
+                      "step": 1, "tier_cfg": cfg, "shrink_s": 0, "known": known}, 1))
+        n_extra = 1
     # directed cases of the known-findings file
     directed = [e for e in known if e.get("directed")]
     if directed:
@@ -254,7 +261,8 @@ def run_check(pid, tier, seed, workers=None, cases=None, quiet=False):
                 harness_errors.append(l)
     sweep = results[:W]
     echo = results[W]
-    directed_res = results[W + 1:]
+    hash_echo = results[W + 1] if n_extra else []
+    directed_res = results[W + 1 + n_extra:]
 
     # ---- merge
     tot = {"cases": 0, "executions": 0, "discarded": 0}
@@ -349,6 +357,32 @@ def run_check(pid, tier, seed, workers=None, cases=None, quiet=False):
                     v["regression_of"] = ent["id"]
                     new_viol.append(v)
     new_viol.extend(history_viol)
+    # ---- hash echo (C07)
+    hs_compared = 0
+    if n_extra:
+        ref_hs = {}
+        for l in echo:
+            if l.get("type") == "stats":
+                ref_hs = {int(k): v for k, v in l.get("case_digests_hs", {}).items()}
+        for l in hash_echo:
+            if l.get("type") != "stats":
+                continue
+            for k, v in l.get("case_digests_hs", {}).items():
+                k = int(k)
+                if v is None or ref_hs.get(k) is None:
+                    continue
+                hs_compared += 1
+                if v != ref_hs[k] and not any(x.get("kind") == "hash_seed" for x in new_viol):
+                    a, = run_sequences(pid, seed, cfg, [[k]], wall, 0)
+                    b, = run_sequences(pid, seed, cfg, [[k]], wall, 1)
+                    if a and b and a.get(k) != b.get(k):
+                        new_viol.append({"property": pid, "signature": {"property": pid, "invariant": "I3:outcome_depends_on_hash_seed"},
+                                         "sig_id": "hs-%d" % k, "kind": "hash_seed", "features": [], "schedule": {"policy": "-"},
+                                         "case": {"mode": "hash_seed", "target": k, "seed": seed, "tier_cfg": cfg, "pythonhashseeds": [0, 1]},
+                                         "detail": "history #%d gives another outcome digest under PYTHONHASHSEED=1 than under PYTHONHASHSEED=0 (it touches no negated-class regex and no set value)" % k})
+                    else:
+                        harness_errors.append({"type": "harness_error", "error": "C07 hash-echo mismatch for case %d did not reproduce alone" % k})
+        det["hash_echo_compared"] = hs_compared
     by_sig = {}
     for v in violations:
         kf = v["kf"] if "kf" in v else classify(v, known)
@@ -392,6 +426,7 @@ def run_check(pid, tier, seed, workers=None, cases=None, quiet=False):
             "workers": W, "pythonhashseeds": hs,
             "run_digest": fast_digest_cases(case_digests),
             "determinism_selftest": {"cases_compared_across_interpreters": det["compared"],
+                                      "hash_echo_cases_compared": det.get("hash_echo_compared", 0),
                                       "mismatches": len(det["mismatches"]),
                                       "other_hashseed": 987654321},
             "seams_patched": patched,
@@ -429,6 +464,17 @@ def run_replay(pid, path):
     if pid == "C17" and rep.get("kind") == "cross_interpreter":
         from .c17_runner import run_replay_c17
         return run_replay_c17(path, rep)
+    if rep["violation"].get("kind") == "hash_seed":
+        c = rep["violation"]["case"]
+        h0, h1 = c["pythonhashseeds"]
+        a, = run_sequences(pid, c["seed"], c["tier_cfg"], [[c["target"]]], 600, h0)
+        b, = run_sequences(pid, c["seed"], c["tier_cfg"], [[c["target"]]], 600, h1)
+        if a and b and a.get(c["target"]) != b.get(c["target"]):
+            print("VIOLATION property=%s replay=%s" % (pid, path))
+            print("  history #%d: digest %s under PYTHONHASHSEED=%s, %s under %s" % (c["target"], a.get(c["target"]), h0, b.get(c["target"]), h1))
+            return 1
+        print("NOT-REPRODUCED property=%s replay=%s" % (pid, path))
+        return 0
     if rep["violation"].get("kind") == "process_history":
         c = rep["violation"]["case"]
         a, b = run_sequences(pid, c["seed"], c["tier_cfg"], [c["predecessors"] + [c["target"]],
